@@ -50,3 +50,40 @@ func Args() (seed int64, count int, ops, impl *bufio.Writer, extra []string, don
 	}
 	return
 }
+
+var oracleFile *os.File
+
+// Fail records a violation of the property observed on the implementation alone (no model involved):
+// class is the name of a decidable class of inputs (matched against known_findings.json), the case is
+// written as JSON and is the replay input.
+func Fail(class string, caseJSON string, what string) {
+	if oracleFile == nil {
+		f, err := os.Create(os.Args[4] + ".oracle")
+		if err != nil {
+			fmt.Fprintln(os.Stderr, err)
+			os.Exit(2)
+		}
+		oracleFile = f
+	}
+	fmt.Fprintf(oracleFile, "FAIL\t%s\t%s\t%s\n", class, caseJSON, what)
+	oracleFile.Sync()
+}
+
+// Stats writes a JSON object of counters next to the impl file (summed over shards by bin/check).
+func Stats(kv map[string]int) {
+	f, err := os.Create(os.Args[4] + ".stats")
+	if err != nil {
+		return
+	}
+	defer f.Close()
+	fmt.Fprint(f, "{")
+	first := true
+	for k, v := range kv {
+		if !first {
+			fmt.Fprint(f, ",")
+		}
+		first = false
+		fmt.Fprintf(f, "%q:%d", k, v)
+	}
+	fmt.Fprint(f, "}")
+}
